@@ -72,6 +72,7 @@ type PathResult struct {
 	QFallback  int64             `json:"qfallback"`
 	QCross     int64             `json:"qcross"`
 	SolverNs   int64             `json:"solver_ns"`
+	Sched      []int             `json:"sched,omitempty"`
 }
 
 // pathEnd is the private panic payload that ends a path; no target recover may swallow it.
